@@ -9,7 +9,12 @@
 //
 // Oracle (nothing more than the property says): after the call the member's
 // canary file does not exist (no command contained in the definition was
-// executed) and os.Environ() is what it was before the call.
+// executed) and the COMPLETE os.Environ() is what it was before the call: no
+// variable added, changed or removed. So that "changed / removed" can be seen
+// at all, every NAME the document uses in a name position (output variables,
+// env keys, named and positional params, call args, $NAME references; see
+// names.go) is pre-set to a known sentinel value before the call, and the
+// payload family contains a plain NAME whose variable pre-exists.
 //
 // Positive control: the executing loader dag.Load must create the canary and
 // change the environment for the env and params leaves, in every shard;
@@ -33,21 +38,30 @@ import (
 
 const canaryVar = "VERIF_CANARY_VAR"
 
+// presetVar: a variable that exists (with presetVal) in the process environment during every member
+// whose payload is the plain name; planted in a name position, the definition NAMES an existing variable.
+const presetVar, presetVal = "VERIF_PRESET_NAME", "verif-preset-value-of-the-loading-process"
+
 type payload struct {
 	Kind   string
 	Text   func(canary string) string
 	VarVal func(canary string) string // value of $VERIF_CANARY_VAR during the call; nil = unset
 	Tier   string
+	Preset bool // $VERIF_PRESET_NAME = presetVal exists during the call
 }
 
 var payloads = []payload{
-	{"backtick", func(c string) string { return "`touch " + c + "`" }, nil, "quick"},
-	{"dollar-paren", func(c string) string { return "$(touch " + c + ")" }, nil, "quick"},
+	{"backtick", func(c string) string { return "`touch " + c + "`" }, nil, "quick", false},
+	{"dollar-paren", func(c string) string { return "$(touch " + c + ")" }, nil, "quick", false},
 	// the variable holds a command substitution: expansion followed by substitution would run it
-	{"var-braces", func(string) string { return "${" + canaryVar + "}" }, func(c string) string { return "`touch " + c + "`" }, "quick"},
-	{"var-plain", func(string) string { return "$" + canaryVar }, func(c string) string { return "`touch " + c + "`" }, "quick"},
-	{"backtick-second", func(c string) string { return "`true` `touch " + c + "`" }, nil, "thorough"},
-	{"backtick-with-var", func(string) string { return "`touch $" + canaryVar + "`" }, func(c string) string { return c }, "thorough"},
+	{"var-braces", func(string) string { return "${" + canaryVar + "}" }, func(c string) string { return "`touch " + c + "`" }, "quick", false},
+	{"var-plain", func(string) string { return "$" + canaryVar }, func(c string) string { return "`touch " + c + "`" }, "quick", false},
+	// the plain name of a variable that already exists in the loading process (output: NAME, env: {NAME: v},
+	// params: NAME=v ...): nothing to execute, nothing to add -- the variable must still be there, unchanged
+	{Kind: "preset-name", Text: func(string) string { return presetVar }, Tier: "quick", Preset: true},
+	{"backtick-second", func(c string) string { return "`true` `touch " + c + "`" }, nil, "thorough", false},
+	{"backtick-with-var", func(string) string { return "`touch $" + canaryVar + "`" }, func(c string) string { return c }, "thorough", false},
+	{Kind: "preset-name-dollar", Text: func(string) string { return "$" + presetVar }, Tier: "thorough", Preset: true},
 }
 
 func payloadByKind(k string) *payload {
@@ -74,6 +88,8 @@ type spec struct {
 type outcome struct {
 	canary   bool
 	delta    map[string]string
+	where    nameSet // names found in a name position of the document (pre-set before the call)
+	preset   int     // how many of them existed during the call
 	err      error
 	panicV   any
 	doc      []byte
@@ -147,6 +163,22 @@ func minus(d, base map[string]string) map[string]string {
 	return out
 }
 
+// deltaWhere: deltaString plus, for a variable the document names, the name position it was found in.
+func deltaWhere(d map[string]string, where nameSet) string {
+	out := deltaString(d)
+	var ks []string
+	for k := range d {
+		if _, ok := where[k]; ok {
+			ks = append(ks, k)
+		}
+	}
+	sort.Strings(ks)
+	for _, k := range ks {
+		out += fmt.Sprintf(" [%s existed before the call (pre-set by the harness); the document names it: %s]", vlib.Short(k, 60), where[k])
+	}
+	return out
+}
+
 func deltaString(d map[string]string) string {
 	var ks []string
 	for k := range d {
@@ -165,7 +197,15 @@ func deltaString(d map[string]string) string {
 
 // document builds the YAML of a member. canary is the member's canary path.
 func (c *checker) document(s spec, canary string) (doc []byte, planted string, lf *leaf, err error) {
-	var tree map[string]any
+	tree, planted, lf, err := c.documentTree(s, canary)
+	if err != nil {
+		return nil, "", nil, err
+	}
+	doc, err = yaml.Marshal(tree)
+	return
+}
+
+func (c *checker) documentTree(s spec, canary string) (tree map[string]any, planted string, lf *leaf, err error) {
 	switch s.Kind {
 	case "base":
 		if s.Profile == "minimal" {
@@ -206,7 +246,6 @@ func (c *checker) document(s spec, canary string) (doc []byte, planted string, l
 			}
 		}
 	}
-	doc, err = yaml.Marshal(tree)
 	return
 }
 
@@ -242,12 +281,18 @@ func (c *checker) exec(s spec) outcome {
 	_ = os.MkdirAll(filepath.Dir(canary), 0o755)
 	_ = os.Remove(canary)
 	var o outcome
-	doc, planted, lf, err := c.document(s, canary)
+	tree, planted, lf, err := c.documentTree(s, canary)
+	var doc []byte
+	if err == nil {
+		doc, err = yaml.Marshal(tree)
+	}
 	if err != nil {
 		o.skipped = err.Error()
 		return o
 	}
 	o.doc = doc
+	var names []string
+	names, o.where = docNames(tree)
 	if lf != nil && s.Payload != "" && s.Kind == "member" && s.Entry == entries[0].Name {
 		if verr := verifyPlanted(doc, lf, planted); verr != nil {
 			c.res.CheckError("planting %s (%s, %s, %s) did not reach the leaf: %v", lf.Path, s.Tmpl, s.Payload, s.Profile, verr)
@@ -268,9 +313,21 @@ func (c *checker) exec(s spec) outcome {
 		o.skipped = werr.Error()
 		return o
 	}
+	clean := environ() // restored after the member
 	os.Unsetenv(canaryVar)
-	if p := payloadByKind(s.Payload); p != nil && p.VarVal != nil {
-		os.Setenv(canaryVar, p.VarVal(canary))
+	os.Unsetenv(presetVar)
+	if p := payloadByKind(s.Payload); p != nil {
+		if p.VarVal != nil {
+			os.Setenv(canaryVar, p.VarVal(canary))
+		}
+		if p.Preset {
+			os.Setenv(presetVar, presetVal)
+		}
+	}
+	var refused []string
+	o.preset, refused = presetSentinels(names)
+	if len(refused) > 0 {
+		c.res.Count("names_not_settable_as_variable", int64(len(refused)))
 	}
 	before := environ()
 	wd := time.AfterFunc(120*time.Second, func() {
@@ -297,8 +354,7 @@ func (c *checker) exec(s spec) outcome {
 		o.canary = true
 	}
 	o.delta = envDelta(before, environ())
-	restoreEnv(before)
-	os.Unsetenv(canaryVar)
+	restoreEnv(clean)
 	_ = os.Remove(canary)
 	_ = os.RemoveAll(root)
 	return o
@@ -339,7 +395,7 @@ func (c *checker) judge(s spec, o outcome, base map[string]string) {
 	if d := minus(o.delta, base); len(d) > 0 {
 		c.violate(fmt.Sprintf("C19/environ/%s/%s", s.Entry, field),
 			fmt.Sprintf("%s changed the process environment: %s; payload planted in %s, template %q, payload %s, profile %s, returned err=%v; document: %s",
-				s.Entry, deltaString(d), field, s.Tmpl, s.Payload, s.Profile, o.err, detailDoc), s)
+				s.Entry, deltaWhere(d, o.where), field, s.Tmpl, s.Payload, s.Profile, o.err, detailDoc), s)
 	}
 }
 
@@ -358,6 +414,14 @@ func (c *checker) member(s spec) {
 			res.Count("hot_reload_replaced_table_entry", 1)
 		} else {
 			res.Count("hot_reload_document_refused", 1) // the reader (or UpdateSpec) rejected the planted document
+		}
+	}
+	if s.Entry == entries[0].Name {
+		res.Count("sentinel_variables_present_during_members(first entry)", int64(o.preset))
+		if s.Payload == "preset-name" && s.Profile == "sparse" {
+			if pos, ok := o.where[presetVar]; ok {
+				res.Count("existing_name_planted_in_name_position:"+s.Field+" ("+pos+")", 1)
+			}
 		}
 	}
 	if s.Entry == entries[0].Name && s.Profile == "sparse" && o.err != nil {
@@ -386,6 +450,9 @@ func (c *checker) baselines() {
 	}
 	sort.Strings(keys)
 	for _, e := range entries {
+		if e.Thorough && !c.fl.Thorough() {
+			continue
+		}
 		for _, prof := range []string{"full", "minimal"} {
 			s := spec{Kind: "base", Profile: prof, Entry: e.Name, Field: "<" + prof + "-base>"}
 			o := c.exec(s)
@@ -491,6 +558,74 @@ func (c *checker) mustFire() {
 	if fired == 0 {
 		c.res.CheckError("no positive control fired: the harness cannot observe command execution / environment changes")
 	}
+	c.sentinelControls()
+}
+
+// sentinelControls: the harness must be able to see a variable that existed before the call being
+// changed and being removed, and the name extraction must find the names of the reference document.
+func (c *checker) sentinelControls() {
+	// (1) comparator: removal and change of an existing variable
+	snap := environ()
+	os.Setenv(presetVar, presetVal)
+	b := environ()
+	os.Unsetenv(presetVar)
+	d1 := envDelta(b, environ())
+	os.Setenv(presetVar, "other")
+	d2 := envDelta(b, environ())
+	restoreEnv(snap)
+	if d1[presetVar] != "<unset>" || d2[presetVar] != "=other" || len(d1) != 1 || len(d2) != 1 {
+		c.res.CheckError("environment comparator blind: removal -> %v, change -> %v", d1, d2)
+	} else {
+		c.res.Count("positive_controls_fired", 1)
+	}
+	// (2) the executing loader changes a pre-existing variable the document names (params: NAME=v):
+	// seen only if the variable was really there with its known value during the call
+	if lf := c.findLeaf("params"); lf == nil {
+		c.res.CheckError("positive control: leaf params not found")
+	} else {
+		s := spec{Kind: "control", Leaf: leafID(lf), Field: lf.Path, Tmpl: "%s=v", Payload: "preset-name", Profile: "sparse", Entry: controlEntry.Name}
+		o := c.exec(s)
+		c.res.Evaluations++
+		if _, named := o.where[presetVar]; o.skipped != "" || o.panicV != nil || o.delta[presetVar] != "=v" || !named {
+			c.res.CheckError("positive control blind: dag.Load with params %s=v must change the pre-set variable: environ_delta=[%s] named=%v err=%v panic=%v skipped=%q",
+				presetVar, deltaString(o.delta), named, o.err, o.panicV, o.skipped)
+		} else {
+			c.res.Count("positive_controls_fired", 1)
+		}
+	}
+	// (3) the same for a sentinel found by the name extraction alone (base names of the full document):
+	// dag.Load of the unplanted full document must change the sentinels of its env keys and params
+	o := c.exec(spec{Kind: "base", Profile: "full", Entry: controlEntry.Name})
+	c.res.Evaluations++
+	for _, n := range []string{"VERIF_BASE_E1", "BASEK", "1", "2"} {
+		if v, ok := o.delta[n]; !ok || v == "<unset>" || v == "="+sentinelValue(n) {
+			c.res.CheckError("positive control blind: dag.Load of the full reference document did not change the pre-set sentinel of %s (delta %q): sentinels not in place?", n, v)
+		}
+	}
+	// (4) extraction: every kind of name position of the full reference document
+	_, where := docNames(c.full)
+	for _, n := range []string{"BASE_OUT", "VERIF_BASE_E1", "BASEK", "SK", "1", "2", "p"} {
+		if _, ok := where[n]; !ok {
+			c.res.CheckError("name extraction: %s (a name of the full reference document) was not found in a name position", n)
+		}
+	}
+	c.res.Bounds["names_in_name_positions_of_full_document"] = len(where)
+	// every shape of the env field and every output leaf: planting the plain name must land in a name position
+	for _, lf := range c.leaves {
+		isOut := strings.HasSuffix(lf.Path, ".output")
+		isEnvKey := strings.HasPrefix(lf.Path, "env(") && lf.IsKey
+		if !isOut && !isEnvKey {
+			continue
+		}
+		tree, _, _, err := c.documentTree(spec{Kind: "member", Leaf: leafID(lf), Field: lf.Path, Tmpl: "%s", Payload: "preset-name", Profile: "sparse"}, "")
+		if err != nil {
+			c.res.CheckError("name extraction: document for %s: %v", lf.Path, err)
+			continue
+		}
+		if _, w := docNames(tree); w[presetVar] == "" {
+			c.res.CheckError("name extraction: the name planted in %s is not recognised as being in a name position", lf.Path)
+		}
+	}
 }
 
 func (c *checker) control(s spec) {
@@ -591,16 +726,19 @@ func main() {
 	profiles := []string{"sparse", "full"}
 	nDocs := 0
 	for _, lf := range c.leaves {
-		for _, tmpl := range templatesFor(lf, fl.Thorough()) {
-			for _, p := range payloads {
-				if p.Tier == "thorough" && !fl.Thorough() {
-					continue
-				}
+		for _, p := range payloads {
+			if p.Tier == "thorough" && !fl.Thorough() {
+				continue
+			}
+			for _, tmpl := range templatesFor(lf, &p, fl.Thorough()) {
 				for _, prof := range profiles {
 					nDocs++
 					for _, e := range entries {
-						if e.Hot && prof == "full" && !fl.Thorough() {
-							continue // quick tier: the watcher path gets the sparse documents only
+						if e.Thorough && !fl.Thorough() {
+							continue
+						}
+						if (e.Hot || e.SparseInQuick) && prof == "full" && !fl.Thorough() {
+							continue // quick tier: the watcher path and the action / log-tab / job entry points get the sparse documents only
 						}
 						c.member(spec{Kind: "member", Leaf: leafID(lf), Field: lf.Path, Tmpl: tmpl, Payload: p.Kind, Profile: prof, Entry: e.Name})
 					}
@@ -624,12 +762,24 @@ func main() {
 	res.Bounds["string_leaves"] = len(c.leaves)
 	res.Bounds["distinct_field_paths"] = len(paths)
 	res.Bounds["non_string_scalar_fields_skipped"] = en.nonString
-	res.Bounds["entry_points"] = len(entries)
+	nEntries, nSparseOnly := 0, 0
+	for _, e := range entries {
+		if e.Thorough && !fl.Thorough() {
+			continue
+		}
+		nEntries++
+		if (e.Hot || e.SparseInQuick) && !fl.Thorough() {
+			nSparseOnly++
+		}
+	}
+	res.Bounds["entry_points"] = nEntries
+	res.Bounds["entry_points_sparse_documents_only"] = nSparseOnly
 	res.Bounds["documents"] = nDocs
 	res.Bounds["profiles"] = profiles
 	if !fl.Thorough() {
 		res.Bounds["hot_reload_entry_points_profiles"] = []string{"sparse"}
 	}
+	res.Bounds["environment_oracle"] = "complete os.Environ() before == after (added, changed, removed); names in name positions of the document pre-set to sentinels"
 	var pk []string
 	for _, p := range payloads {
 		if p.Tier == "quick" || fl.Thorough() {
@@ -640,6 +790,7 @@ func main() {
 	res.Rule = "member = (string leaf of the definition found by reflection / listed shape of an `any` field, embedding template, canary payload, document profile, non-executing entry point); every member of the product is executed on the real code; distinct = distinct tuple; all are non-trivial: the payload is checked (through the loader's own decode) to sit in exactly the intended leaf"
 	res.Assume("a command contained in the definition is observed through the file it creates (touch <canary>); commands are started synchronously by the loaders (exec.Cmd.Output), so the file exists when the entry point returns")
 	res.Assume("hot reload: the watcher is known to have processed the delivered document when a definition renamed into the directory afterwards shows up in the reader's table (one inotify watch delivers in order, one goroutine handles the events); zz_sync_N.yaml helper definitions are therefore added to the member's directory")
+	res.Assume("a variable the definition names is observed through a sentinel the harness sets before the call for every name found in a name position of the document (names.go: output, env keys, params names and positions, call args, $NAME references); a name position that table does not know is only covered by the plain-name payload, whose variable always exists")
 	res.Assume("API handler operations are invoked through Handler.Configure on a bare operations.BlackdaggerAPI (no HTTP server, no authentication middleware)")
 	res.Write(fl.Out)
 }
